@@ -69,7 +69,9 @@ pub fn summarise_output(v: &Value) -> Option<String> {
         let kind = if v.get("error").map(|e| !e.is_null()).unwrap_or(false) { "error" } else { "result" };
         return Some(format!("response id={} {kind}", v["id"]));
     }
-    Some(format!("other {}", v.get("method").and_then(|m| m.as_str()).unwrap_or("?")))
+    // whatever else a server chooses to send (log and show messages, progress, requests of its own) is
+    // not constrained by the properties and may come at a moment that depends on real scheduling
+    None
 }
 
 #[allow(dead_code)]
